@@ -59,6 +59,8 @@ func (w *World) exec(op Op) {
 		}
 	case "sess":
 		w.opSess(op)
+	case "storeapi":
+		w.opStoreAPI(op)
 	case "gc":
 		w.opGC(op)
 	case "sleep":
